@@ -119,7 +119,7 @@ def parseRow (line : List Char) : List String := (parseText line).headD []
 /-! ## the table machine -/
 
 inductive Err where
-  | dupHeader | badSilac | missingColumn | shortRow | emptyFile | noQvalueColumn | badNumber | notTxt
+  | dupHeader | badSilac | missingColumn | shortRow | emptyFile | noQvalueColumn | badNumber | notTxt | notModelled | indexError
 deriving DecidableEq, Repr, Inhabited
 
 def Err.toString : Err → String
@@ -131,6 +131,8 @@ def Err.toString : Err → String
   | .noQvalueColumn => "no_qvalue_column"
   | .badNumber => "bad_number"
   | .notTxt => "not_txt"
+  | .notModelled => "not_modelled"
+  | .indexError => "index_error"
 
 /-- `ProteinGroupResult` with every base field already `str()`-converted; `nprec = len(precursorQuants)` -/
 structure Row where
@@ -168,6 +170,8 @@ structure Ctx where
   experiments : List String
   silac : Int := -1
   tmt : Int := -1
+  /-- `len(params["groups"])` of the Triqler generator (0 without a `--file_list_file`) -/
+  triqlerGroups : Nat := 0
 deriving Repr, Inhabited
 
 /-- `append_headers`: one `append_header` after the other, the first duplicate raises -/
@@ -176,7 +180,7 @@ def appendHeaders : List String → List String → Except Err (List String)
   | hs, h :: r => if h ∈ hs then .error .dupHeader else appendHeaders (hs ++ [h]) r
 
 inductive Gen where
-  | annotations | diannAnnotations | uniqueCounts | idType | sumIbaq | lfq | coverage | tmt | evidenceIds
+  | annotations | diannAnnotations | uniqueCounts | idType | sumIbaq | lfq | coverage | tmt | triqler | evidenceIds
 deriving DecidableEq, Repr, Inhabited
 
 /-- columns/protein_annotations.py `MQ_PROTEIN_ANNOTATION_HEADERS` -/
@@ -199,6 +203,7 @@ def tmtChannelNames (t : Int) : List String := (List.range t.toNat).map (fun i =
 def Gen.valid (ctx : Ctx) : Gen → Bool
   | .lfq => decide (ctx.experiments.length > 1) && decide (ctx.tmt ≤ 0)
   | .tmt => decide (ctx.tmt > 0)
+  | .triqler => !(decide (ctx.tmt > 0) || decide (ctx.silac > 0)) && decide (ctx.triqlerGroups > 1)
   | _ => true
 
 /-- the header names `append_headers` of each generator passes to `append_header`, in order -/
@@ -223,6 +228,7 @@ def Gen.hdrs (ctx : Ctx) : Gen → Except Err (List String)
       (tmtChannelNames ctx.tmt).map (fun i => "Reporter intensity corrected " ++ i ++ " " ++ e)
       ++ (tmtChannelNames ctx.tmt).map (fun i => "Reporter intensity " ++ i ++ " " ++ e)
       ++ (tmtChannelNames ctx.tmt).map (fun i => "Reporter intensity count " ++ i ++ " " ++ e)))
+  | .triqler => .error .notModelled
   | .evidenceIds => .ok ["Evidence IDs"]
 
 /-- `len(get_experiment_to_idx_map())`: the number of keys of `{e: idx for idx, e in enumerate(experiments)}` -/
@@ -251,6 +257,7 @@ def Gen.vals (ctx : Ctx) (_r : Row) : Gen → List String
   | .coverage => [cell "coverage", cell "coverage", cell "coverage"]
       ++ List.replicate (countDistinct ctx.experiments) (cell "coverageExp")
   | .tmt => (List.replicate (countDistinct ctx.experiments) (List.replicate (ctx.tmt.toNat * 3) (cell "tmt"))).flatten
+  | .triqler => []
   | .evidenceIds => [cell "evidenceIds"]
 
 /-- `ProteinGroupColumns.append`: `is_valid`, then the headers, then the columns -/
@@ -268,18 +275,55 @@ def applyAll (ctx : Ctx) : Table → List Gen → Except Err Table
     let t' ← applyGen ctx t g
     applyAll ctx t' gs
 
+/-- Python `del l[i]` (negative `i` counts from the end; out of range raises IndexError) -/
+def pyDel {α} (l : List α) (i : Int) : Except Err (List α) :=
+  let j := if i < 0 then i + l.length else i
+  if 0 ≤ j ∧ j < l.length then .ok (l.eraseIdx j.toNat) else .error .indexError
+
+def delColumn (i : Int) : List Row → Except Err (List Row)
+  | [] => .ok []
+  | r :: rs => do
+    let ex ← pyDel r.extra i
+    let rest ← delColumn i rs
+    pure ({ r with extra := ex } :: rest)
+
+/-- `ProteinGroupResults.remove_column`: an unknown header is ignored (with a warning); otherwise the header is
+    deleted and `extraColumns[idx - len(PROTEIN_GROUP_HEADERS)]` of every row — for a BASE header that index is
+    negative, i.e. Python deletes an extra column counted from the end (the model follows the code) -/
+def removeColumn (t : Table) (header : String) : Except Err Table :=
+  if header ∈ t.headers then do
+    let idx := t.headers.idxOf header
+    let rows ← delColumn ((idx : Int) - (baseHeaders.length : Int)) t.rows
+    pure { headers := t.headers.eraseIdx idx, rows := rows }
+  else .ok t
+
+/-- a history step: a column generator or `remove_column` -/
+inductive Op where
+  | gen (g : Gen) | remove (header : String)
+deriving DecidableEq, Repr, Inhabited
+
+def applyOp (ctx : Ctx) (t : Table) : Op → Except Err Table
+  | .gen g => applyGen ctx t g
+  | .remove h => removeColumn t h
+
+def applyOps (ctx : Ctx) : Table → List Op → Except Err Table
+  | t, [] => .ok t
+  | t, o :: os => do
+    let t' ← applyOp ctx t o
+    applyOps ctx t' os
+
 /-! ## writers -/
 
 inductive Writer where
   | maxquant (skipLfq : Bool) | diann | minimal
 deriving DecidableEq, Repr, Inhabited
 
-/-- `get_columns` (the Triqler generator of the MaxQuant writer is invalid without a file list with at
-    least two conditions and is left out) -/
+/-- `get_columns` (the Triqler generator is part of the history; it is invalid without a file list naming
+    at least two conditions, and the model stops with `notModelled` where it would run) -/
 def Writer.columns : Writer → List Gen
   | .maxquant skipLfq =>
     [.annotations, .uniqueCounts, .idType, .sumIbaq] ++ (if skipLfq then [] else [.lfq])
-      ++ [.coverage, .tmt, .evidenceIds]
+      ++ [.coverage, .tmt, .triqler, .evidenceIds]
   | .diann => [.diannAnnotations, .uniqueCounts, .lfq]
   | .minimal => [.annotations]
 
